@@ -23,13 +23,13 @@ let rec nat_to_int = function Datatypes.O -> 0 | Datatypes.S n -> 1 + nat_to_int
 
 let () =
   let cur_id = ref "" and cur_cfg = ref None and steps = ref [] in
-  let op = ref None and res = ref [] and obs = ref None in
+  let op = ref None and res = ref [] and obs = ref None and aux = ref None in
   let flush_step () =
     (match !op with
      | Some (code, args) ->
-       steps := { Run.s_op = code; Run.s_args = args; Run.s_res = !res; Run.s_obs = !obs } :: !steps
+       steps := { Run.s_op = code; Run.s_args = args; Run.s_res = !res; Run.s_obs = !obs; Run.s_aux = !aux } :: !steps
      | None -> ());
-    op := None; res := []; obs := None in
+    op := None; res := []; obs := None; aux := None in
   let finish_case () =
     flush_step ();
     (match !cur_cfg with
@@ -52,7 +52,7 @@ let () =
        match toks line with
        | "C" :: id :: kind :: scalar :: hint :: _ ->
          cur_id := id;
-         steps := []; op := None; res := []; obs := None;
+         steps := []; op := None; res := []; obs := None; aux := None;
          let h = match Codes_tbl.kw_code hint with Some c -> z_of_string c | None -> Big_int_Z.zero_big_int in
          cur_cfg := Some { Run.c_cdt = (kind = "cdt"); Run.c_f32 = (scalar = "f32"); Run.c_hint = h }
        | "O" :: _k :: name :: args ->
@@ -64,6 +64,8 @@ let () =
        | "R" :: rs -> res := Stdlib.List.filter_map tok_to_z rs
        | "S" :: ss ->
          obs := Some (Stdlib.List.filter_map (fun s -> if is_int s then Some (z_of_string s) else None) ss)
+       | "Q" :: qs ->
+         aux := Some (Stdlib.List.filter_map (fun s -> if is_int s then Some (z_of_string s) else None) qs)
        | "X" :: _ -> finish_case ()
        | _ -> ()
      done
